@@ -658,7 +658,7 @@ def simulateChunk (fuel : Nat) (e : Engine M) (sym : Nat) (cs : List Candle) : E
           | c :: more =>
             if e.err.isSome then e else
             let cur : Candle := match prev with
-              | some p => { c with h := maxR c.h p.c, l := minR c.l p.c }
+              | some p => Jesse.Gen.fixJump p c
               | none => c
             let resel := chunkReselect sym real more
             let (e1, cur') := matchLoop u fuel e sym cur cands resel true
